@@ -12,7 +12,10 @@ use crate::json::J;
 use crate::report::{par_map, repo_root, Ctx, Evidence};
 use crate::rng::{fnv1a, Rng, FNV_INIT};
 use rustzx_core::host::{Snapshot, Tape};
-use rustzx_core::zx::keys::ZXKey;
+use rustzx_core::zx::joy::kempston::KempstonKey;
+use rustzx_core::zx::joy::sinclair::{SinclairJoyNum, SinclairKey};
+use rustzx_core::zx::keys::{CompoundKey, ZXKey};
+use rustzx_core::zx::mouse::kempston::{KempstonMouseButton, KempstonMouseWheelDirection};
 use rustzx_core::{EmulationMode, EmulationStopReason, IterableEnum};
 use rustzx_utils::io::{FileAsset, GzipAsset};
 use std::collections::HashSet;
@@ -78,9 +81,44 @@ fn make_asset(kind: AssetKind, gz_path: &std::path::Path, raw: &[u8], tag: u64) 
     }
 }
 
+/// one host input (indices into the `IterableEnum` orders)
+#[derive(Clone, Debug)]
+enum Input {
+    Key(usize, bool),
+    Compound(usize, bool),
+    Sinclair(usize, usize, bool),
+    Kempston(usize, bool),
+    MouseBtn(usize, bool),
+    Wheel(bool),
+    Move(i8, i8),
+}
+
 struct Events {
-    /// (frame, key index, pressed)
-    keys: Vec<(usize, usize, bool)>,
+    /// (frame, input)
+    keys: Vec<(usize, Input)>,
+}
+
+fn send(m: &mut Machine, i: &Input) {
+    match i {
+        Input::Key(k, p) => m.emu.send_key(ZXKey::iter().nth(*k).unwrap(), *p),
+        Input::Compound(k, p) => m.emu.send_compound_key(CompoundKey::iter().nth(*k).unwrap(), *p),
+        Input::Sinclair(j, k, p) => m.emu.send_sinclair_key(SinclairJoyNum::iter().nth(*j).unwrap(), SinclairKey::iter().nth(*k).unwrap(), *p),
+        Input::Kempston(k, p) => m.emu.send_kempston_key(KempstonKey::iter().nth(*k).unwrap(), *p),
+        Input::MouseBtn(k, p) => m.emu.send_mouse_button(KempstonMouseButton::iter().nth(*k).unwrap(), *p),
+        Input::Wheel(up) => m.emu.send_mouse_wheel(if *up { KempstonMouseWheelDirection::Up } else { KempstonMouseWheelDirection::Down }),
+        Input::Move(x, y) => m.emu.send_mouse_pos_diff(*x, *y),
+    }
+}
+
+fn random_input(rng: &mut Rng) -> Input {
+    match rng.below(10) {
+        0..=3 => Input::Key(rng.below(ZXKey::iter().count() as u64) as usize, rng.bool()),
+        4 => Input::Compound(rng.below(CompoundKey::iter().count() as u64) as usize, rng.bool()),
+        5 => Input::Sinclair(rng.below(2) as usize, rng.below(SinclairKey::iter().count() as u64) as usize, rng.bool()),
+        6 | 7 => Input::Kempston(rng.below(KempstonKey::iter().count() as u64) as usize, rng.bool()),
+        8 => if rng.bool() { Input::MouseBtn(rng.below(KempstonMouseButton::iter().count() as u64) as usize, rng.bool()) } else { Input::Wheel(rng.bool()) },
+        _ => Input::Move(rng.u8() as i8, rng.u8() as i8),
+    }
 }
 
 fn build(scn: &Scenario, asset: AssetKind, tag: u64) -> Machine {
@@ -90,6 +128,7 @@ fn build(scn: &Scenario, asset: AssetKind, tag: u64) -> Machine {
     let mut cfg = Cfg::of(is128);
     cfg.ay = true;
     cfg.kempston = true;
+    cfg.mouse = true;
     if let Scenario::TapeLoad { fast, .. } = scn {
         cfg.fastload = *fast;
         cfg.autoload = true;
@@ -111,6 +150,14 @@ fn build(scn: &Scenario, asset: AssetKind, tag: u64) -> Machine {
                     3 => { code[i] = 0x32; code[i + 1] = rng.u8(); code[i + 2] = 0x40 + (rng.u8() & 0x1F); }
                     4 => { code[i] = 0x10; code[i + 1] = 0xFC; }
                     5 => { code[i] = 0x76; }
+                    // Kempston joystick, and the mouse ports through IN r,(C) with BC loaded first
+                    6 => { code[i] = 0xDB; code[i + 1] = 0x1F; }
+                    7 if i + 6 < code.len() => {
+                        let port = *rng.pick(&[0xFADFu16, 0xFBDF, 0xFFDF, 0xF7FE, 0xEFFE, 0x001F]);
+                        code[i] = 0x01; code[i + 1] = port as u8; code[i + 2] = (port >> 8) as u8;
+                        code[i + 3] = 0xED; code[i + 4] = 0x40 + 8 * *rng.pick(&[0u8, 1, 2, 3, 4, 5, 7]);
+                        i += 4;
+                    }
                     _ => {}
                 }
                 i += 1 + rng.below(6) as usize;
@@ -164,15 +211,14 @@ struct Trace {
 }
 
 fn drive(scn: &Scenario, asset: AssetKind, drv: &Driving, ev: &Events, checkpoints: &[usize], total: usize, tag: u64, base_boundaries: &[u64]) -> Result<Trace, String> {
-    let keys: Vec<ZXKey> = ZXKey::iter().collect();
     let mut m = build(scn, asset, tag);
     let mut tr = Trace { boundaries: vec![], points: vec![], audio: FNV_INIT, samples: 0 };
     m.dbg().calls = 0;
     let mut frame = 0usize;
     let apply = |m: &mut Machine, frame: usize| {
-        for (f, k, p) in ev.keys.iter() {
+        for (f, i) in ev.keys.iter() {
             if *f == frame {
-                m.emu.send_key(keys[*k], *p);
+                send(m, i);
             }
         }
     };
@@ -309,10 +355,10 @@ fn one_tuple(ctx: &Ctx, rng: &mut Rng, st: &mut St, case: u64) {
     };
     let total = if ctx.quick() { 20 + rng.below(60) as usize } else { 100 + rng.below(200) as usize };
     // events at a few frames
-    let n_ev = rng.below(6) as usize;
+    let n_ev = rng.below(10) as usize;
     let mut ev_frames: Vec<usize> = (0..n_ev).map(|_| rng.below(total as u64) as usize).collect();
     ev_frames.sort();
-    let ev = Events { keys: ev_frames.iter().map(|f| (*f, rng.below(40) as usize, rng.bool())).collect() };
+    let ev = Events { keys: ev_frames.iter().map(|f| (*f, random_input(rng))).collect() };
     let mut checkpoints: Vec<usize> = ev_frames.iter().cloned().filter(|f| *f > 0).collect();
     checkpoints.push(total);
     checkpoints.sort();
